@@ -181,6 +181,22 @@ func checkEP(ctx *pbt.Ctx, c EP) error {
 	block := append(append([]byte{}, prefix...), data...)
 
 	items := refSequence(data, nTx+2)
+	if c.Mut == "truncate" || c.Mut == "bitflip" || c.Mut == "byteset" {
+		// a damaged length/count field may announce 2^31 or more: how decoders cope with
+		// that is C09's question (an unrepaired decoder can exhaust memory), as in "bytes"
+		end := 0
+		for _, it := range items {
+			if maxClaim(data[it.off:]) >= 1<<31 {
+				ctx.Discard("a length/count field announces 2^31 or more (left to C09)")
+				return nil
+			}
+			end = it.off + it.d.Consumed
+		}
+		if maxClaim(data[end:]) >= 1<<31 {
+			ctx.Discard("a length/count field announces 2^31 or more (left to C09)")
+			return nil
+		}
+	}
 
 	ctx.Label("mut=" + c.Mut)
 	ctx.Label("ntx=" + cls(nTx))
@@ -251,7 +267,14 @@ func checkEP(ctx *pbt.Ctx, c EP) error {
 	off := 0
 	own := append([]byte{}, data...) // the library gets its own copy of the bytes
 	for i := 0; i < nTx+2; i++ {
-		tx, used, err := bt.NewTxFromStream(own[off:])
+		g := guarded(func() (*bt.Tx, int64, error) {
+			tx, used, err := bt.NewTxFromStream(own[off:])
+			return tx, int64(used), err
+		})
+		if g.panicked {
+			ctx.Label("lib-panicked-on-rejected-input")
+		}
+		tx, used, err := g.tx, int(g.used), g.err
 		ok, verr := judge(fmt.Sprintf("NewTxFromStream at offset %d", off), i, tx, int64(used), err)
 		if verr != nil {
 			return verr
@@ -269,7 +292,11 @@ func checkEP(ctx *pbt.Ctx, c EP) error {
 
 	// ---- B: NewTxFromBytes accepts exactly when the first transaction is all there is ----
 	{
-		tx, err := bt.NewTxFromBytes(append([]byte{}, data...))
+		g := guarded(func() (*bt.Tx, int64, error) {
+			tx, err := bt.NewTxFromBytes(append([]byte{}, data...))
+			return tx, 0, err
+		})
+		tx, err := g.tx, g.err
 		whole := accepted > 0 && items[0].d.Consumed == len(data)
 		switch {
 		case err == nil && !whole:
@@ -310,7 +337,11 @@ func checkEP(ctx *pbt.Ctx, c EP) error {
 					tx = &bt.Tx{}
 				}
 				what := fmt.Sprintf("(*Tx).ReadFrom (populated receiver=%v) on %s, transaction %d", populated, k.name, i)
-				nr, err := tx.ReadFrom(cr)
+				g := guarded(func() (*bt.Tx, int64, error) {
+					n, err := tx.ReadFrom(cr)
+					return tx, n, err
+				})
+				nr, err := g.used, g.err
 				if (err == nil) != (i < accepted) {
 					return fmt.Errorf("%s: err=%v, but NewTxFromStream at the same offset %s: the entry points disagree on %s", what, err, map[bool]string{true: "accepted", false: "rejected"}[i < accepted], head(data))
 				}
@@ -356,7 +387,11 @@ func checkEP(ctx *pbt.Ctx, c EP) error {
 		for i := 0; i < c.DirtyList; i++ {
 			txs = append(txs, ref.ToLib(c.Dirty))
 		}
-		nr, err := txs.ReadFrom(cr)
+		g := guarded(func() (*bt.Tx, int64, error) {
+			n, err := txs.ReadFrom(cr)
+			return nil, n, err
+		})
+		nr, err := g.used, g.err
 		shouldAccept := accepted >= claimed
 		what := fmt.Sprintf("(*Txs).ReadFrom into a list of %d on %s (count prefix %x announces %d, %d encoded)", c.DirtyList, k.name, prefix, claimed, nTx)
 		if (err == nil) != shouldAccept {
